@@ -1072,6 +1072,11 @@ func skSupCmd(k skCtx, c *skCmd) bool {
 	case "traperr":
 		return len(c.P) == 0
 	case "asub", "echosub":
+		for _, pt := range c.W2 {
+			if pt.K == 's' { // [finding C26-status-after-cmdsubst]
+				return false
+			}
+		}
 		return !(k.e && (k.ign || k.unk)) && skSupProg(skSubCtx(k), false, c.P)
 	case "subsh":
 		return !(k.e && (k.ign || k.unk)) && skSupProg(skSubCtx(k), false, c.P)
@@ -1473,7 +1478,11 @@ func (g *skGen) stmt(k skCtx, depth int) *skStmt {
 						w1 = []skPart{{K: 'l', S: r.Pick(skLits)}}
 					}
 					if r.Intn(3) == 0 {
-						w2 = g.word(false)
+						for _, pt := range g.word(false) {
+							if pt.K != 's' || g.wildly() {
+								w2 = append(w2, pt)
+							}
+						}
 					}
 					return &skStmt{C: &skCmd{K: "echosub", W: w1, P: p, W2: w2}}
 				}
